@@ -147,7 +147,7 @@ def validate_program(run, sc, tag, cse=True, ekf=True, prefix="C02"):
         for (tgt, i, j), term in cells.items():
             if i in state_by_idx and j in col_by_idx:
                 r, c = state_by_idx[i], col_by_idx[j]
-                prove(f"{qual}.cell_{i}_{j}", term, T.tr(sympy.diff(sc.state_model[r], c)), f"d {r.name}' / d {c.name}", numeric=(qual, objs_ekf, (tgt, i, j), sympy.diff(sc.state_model[r], c)))
+                prove(f"{qual}.cell_{i}_{j}", term, T.tr(real_diff(sc.state_model[r], c)), f"d {r.name}' / d {c.name}", numeric=(qual, objs_ekf, (tgt, i, j), real_diff(sc.state_model[r], c)))
             else:
                 flag(f"{qual}.cell_{i}_{j}.in_range", False, "cell outside the matrix")
     cells, ret, ev = run_body("ExtendedKalmanFilterProcessModel::covariance", objs_ekf)
@@ -188,7 +188,7 @@ def validate_program(run, sc, tag, cse=True, ekf=True, prefix="C02"):
             flag(f"{typ}SensorModel::jacobian.all_cells_assigned", {(i, j) for (_, i, j) in cells} == {(i, j) for i in range(len(rn)) for j in range(n)}, "not every cell assigned")
             for (tgt, i, j), term in cells.items():
                 if i in rd_by_idx and j in state_by_idx:
-                    prove(f"{typ}SensorModel::jacobian.cell_{i}_{j}", term, T.tr(sympy.diff(sm[rd_by_idx[i]], state_by_idx[j])), f"d {rd_by_idx[i]} / d {state_by_idx[j].name}", numeric=(f"{typ}SensorModel::jacobian", objs, (tgt, i, j), sympy.diff(sm[rd_by_idx[i]], state_by_idx[j])))
+                    prove(f"{typ}SensorModel::jacobian.cell_{i}_{j}", term, T.tr(real_diff(sm[rd_by_idx[i]], state_by_idx[j])), f"d {rd_by_idx[i]} / d {state_by_idx[j].name}", numeric=(f"{typ}SensorModel::jacobian", objs, (tgt, i, j), real_diff(sm[rd_by_idx[i]], state_by_idx[j])))
         cells, ret, ev = run_body(f"{typ}SensorModel::covariance", objs)
         if cells is not None:
             flag(f"{typ}SensorModel::covariance.all_cells_assigned", {(i, j) for (_, i, j) in cells} == {(i, j) for i in range(len(rn)) for j in range(len(rn))}, "not every cell assigned")
@@ -196,6 +196,14 @@ def validate_program(run, sc, tag, cse=True, ekf=True, prefix="C02"):
                 want = sc.sensor_noises[sname][rd_by_idx[i]] if i == j and i in rd_by_idx else 0.0
                 prove(f"{typ}SensorModel::covariance.cell_{i}_{j}", term, T.tr(sympy.Float(want)), "configured reading noise")
     return problems, header, source
+
+
+def real_diff(expr, var):
+    """ORACLE: the partial derivative of the REAL function (symbols without assumptions given real=True first, then named back)."""
+    import sympy
+
+    J, rs = scenarios.real_jacobian(sympy.Matrix([expr]), [var])
+    return J[0, 0].xreplace({v: k for k, v in rs.items()})
 
 
 def corpus(seed, n, ekf=True):
